@@ -274,6 +274,68 @@ func runRevoked(p *core.Prog) *core.Result {
 		}
 	}
 	res.Count("target reads reachable from a trap call", nStale)
+	// ... and the target's property that a post-check validates the trap's answer against is read
+	// AFTER the trap ran: the trap may have changed the target (an honest forwarding deleteProperty
+	// trap deletes the property). A getOwnProp* result obtained before the trap call and used after
+	// it is stale (seed C11/h).
+	nOrder := 0
+	for _, f := range methods {
+		var traps []ssa.Instruction
+		core.AllInstrs(f, func(in ssa.Instruction) {
+			if c, ok := in.(*ssa.Call); ok && c.Call.IsInvoke() && core.NamedOf(c.Call.Value.Type()) == ph {
+				traps = append(traps, in)
+			}
+		})
+		if len(traps) == 0 {
+			continue
+		}
+		core.AllInstrs(f, func(in ssa.Instruction) {
+			g, ok := in.(*ssa.Call)
+			if !ok || !g.Call.IsInvoke() || !strings.HasPrefix(g.Call.Method.Name(), "getOwnProp") {
+				return
+			}
+			// uses of the result, through phis
+			var users []ssa.Instruction
+			seen := map[ssa.Value]bool{}
+			var collect func(v ssa.Value)
+			collect = func(v ssa.Value) {
+				if seen[v] {
+					return
+				}
+				seen[v] = true
+				for _, r := range core.Referrers(v) {
+					if ph2, ok := r.(*ssa.Phi); ok {
+						collect(ph2)
+						continue
+					}
+					if v2, ok := r.(ssa.Value); ok {
+						switch r.(type) {
+						case *ssa.TypeAssert, *ssa.Extract, *ssa.ChangeInterface, *ssa.MakeInterface:
+							collect(v2)
+							continue
+						}
+					}
+					users = append(users, r)
+				}
+			}
+			collect(g)
+			for _, k := range traps {
+				if !after(in, k) || core.InstrDominates(k, in) {
+					continue // the read is not before this trap call
+				}
+				for _, u := range users {
+					if after(k, u) {
+						nOrder++
+						res.Bad(fmt.Sprintf("(*proxyObject).%s:target property read after the trap#%d", f.Name(), nOrder), p.Pos(g.Pos()), "the target's own property is read before the handler's trap is called ("+p.Pos(k.Pos())+") and used after it ("+p.Pos(u.Pos())+"): a trap that changes the target (an honest forwarding deleteProperty) is validated against the stale property and rejected with a TypeError")
+						return
+					}
+				}
+			}
+		})
+	}
+	if nOrder == 0 {
+		res.OK("(*proxyObject):target property read after the trap", "", "no getOwnProp* result obtained before a trap call is used after it")
+	}
 
 	// override completeness: every key-kinded / structural internal method is overridden (no silent fallback to baseObject)
 	base, _ := p.GojaType("baseObject")
@@ -678,6 +740,38 @@ func runCompatPolarity(p *core.Prog) *core.Result {
 			}
 		}
 	})
+	// the invariants compare with SameValue: no StrictEquals / Equals in the proxy's checks
+	// (NaN must equal NaN, +0 must differ from -0; seed C11/g)
+	pt, err := p.GojaType("proxyObject")
+	if err != nil {
+		return res.Fail(err)
+	}
+	nEq := 0
+	for _, f := range p.Funcs {
+		top := core.EnclosingTop(f)
+		if top.Signature.Recv() == nil || core.NamedOf(top.Signature.Recv().Type()) != pt {
+			continue
+		}
+		core.AllInstrs(f, func(in ssa.Instruction) {
+			c, ok := in.(ssa.CallInstruction)
+			if !ok {
+				return
+			}
+			nm := ""
+			if c.Common().IsInvoke() {
+				nm = c.Common().Method.Name()
+			} else if sc := c.Common().StaticCallee(); sc != nil {
+				nm = sc.Name()
+			}
+			if nm == "StrictEquals" || nm == "Equals" {
+				nEq++
+				res.Bad(fmt.Sprintf("(*proxyObject).%s:invariant compared with SameValue#%d", top.Name(), nEq), p.Pos(c.Pos()), "a proxy invariant compares values with "+nm+" instead of SameAs (SameValue): an honest trap returning NaN for a frozen NaN property is rejected, and a +0/-0 lie is accepted")
+			}
+		})
+	}
+	if nEq == 0 {
+		res.OK("(*proxyObject):invariants compared with SameValue", p.Pos(fn.Pos()), "no StrictEquals / Equals in the methods of proxyObject")
+	}
 	// a phi-returned false: `return a && b` shapes are not used here; require at least the value test
 	if n == 0 {
 		res.Bad("(*proxyObject).__isCompatibleDescriptor:rejects on difference", p.Pos(fn.Pos()), "no sameness test controls a rejection any more: the value / getter / setter clauses of the invariant are gone")
